@@ -53,14 +53,13 @@ CHECKS = {
                 note=K_NOTE_KERNEL + " As C05. 'Thousands of threads in any mixture' is reduced to one thread from a clean state: threads "
                      "share no runtime state apart from the allocator; histories and heap baseline over many threads are outside."),
     "C03": dict(engine="K", technique=K_TECH, design_ref="§4 C03, §10",
-                text=("PARTIAL, stated: bounded model checking of (1) the allocator's size/index arithmetic at full 64-bit width and (2) ONE "
-                      "malloc (any usize, the OS may refuse) / memalign (size 1..4096, alignment 32..8192) / calloc (dirty memory) and TWO "
-                      "mallocs in a row with symbolic sizes on the fresh heap above an OS model (null iff too large or refused; aligned; "
-                      "inside mapped memory; disjoint; zeroed; allocator untouched on refusal). Histories that contain a free or a "
-                      "realloc are NOT decided."),
-                note=K_NOTE_KERNEL + " The larger half of the property (every history, reuse, coalescing, contents intact across frees, "
-                     "realloc, heap usable after OOM) is outside: a concrete 5-operation script already exhausts 10 min / 14-19 GB "
-                     "(measured; DESIGN.md §10)."),
+                text=("PARTIAL (a small part of the property), stated: bounded model checking of (1) the allocator's size/index arithmetic "
+                      "at full 64-bit width (request padding, small-bin and tree-bin indexing, bit tricks, alignment) and (2) ONE malloc of "
+                      "any usize on the fresh heap above an OS model that may refuse memory (null iff too large or refused; aligned; "
+                      "block and header inside mapped memory; allocator untouched on refusal). Nothing else is decided."),
+                note=K_NOTE_KERNEL + " memalign, calloc, free, realloc, any second operation, and therefore reuse, coalescing, contents "
+                     "intact, heap usable after OOM - most of the property - are outside: each was built and measured and gives no "
+                     "verdict within 15-30 min / 24 GB with Kani 0.68 + CBMC 6.11 (DESIGN.md §4 C03)."),
     "C07": dict(engine="K", technique=K_TECH, design_ref="§4 C07",
                 text=("Bounded model checking of the start-up walk (tiny_start::start::resolve + AuxValues::from_auxv) over symbolic kernel "
                       "stack images and of env::var/var_unix/args over symbolic environment blocks, against the definition 'first entry whose "
